@@ -1,0 +1,17 @@
+//go:build verif
+
+package json
+
+import (
+	"github.com/goccy/go-json/internal/decoder"
+	"github.com/goccy/go-json/internal/encoder"
+)
+
+// Re-exports of internal hooks for the /verif correspondence harness (which cannot import
+// internal packages). Compiled only with -tags verif.
+
+func VerifAppendInt(bits uint8, w uint64) []byte  { return encoder.VerifAppendInt(bits, w) }
+func VerifAppendUint(bits uint8, w uint64) []byte { return encoder.VerifAppendUint(bits, w) }
+func VerifDecodeInt(bits int, signed bool, buf []byte) string {
+	return decoder.VerifDecodeInt(bits, signed, buf)
+}
